@@ -25,6 +25,10 @@ pub enum CovKind {
     DenomMel,
     /// signature by key k at slot spender_index, AND additional data of the coin equals tx.data
     DataBound(usize),
+    /// true iff the environment's parent coin id equals the input at the spender index (heap 2, 3 against heap 0)
+    EnvConsistent,
+    /// true iff the hash of the spender's first covenant equals the self-hash slot (heap 4) and the creation height (heap 8) is below h
+    SelfHashAndHeightBelow(u64),
     /// undecodable bytes
     Garbage,
     /// returns a byte string (truthy) / empty vector
@@ -71,6 +75,27 @@ pub fn cov_bytes(kind: &CovKind, keys: &[(Ed25519PK, Ed25519SK)]) -> Vec<u8> {
             ops.extend([LoadImm(7), Hash(1000), BtoI, i(5), LoadImm(0), VRef, Hash(1000), BtoI, Eql, And]);
             Covenant::from_ops(&ops).to_bytes().to_vec()
         }
+        CovKind::EnvConsistent => {
+            // inputs = tx[1]; me = inputs[spender_index]; me[0] == heap2 (as integers) and me[1] == heap3
+            Covenant::from_ops(&[
+                LoadImm(2), BtoI,                                   // parent txhash
+                i(0), LoadImm(9), i(1), LoadImm(0), VRef, VRef, VRef, BtoI, // tx.inputs[sidx][0]
+                Eql,
+                LoadImm(3),                                         // parent index
+                i(1), LoadImm(9), i(1), LoadImm(0), VRef, VRef, VRef,       // tx.inputs[sidx][1]
+                Eql,
+                And,
+            ]).to_bytes().to_vec()
+        }
+        CovKind::SelfHashAndHeightBelow(h) => {
+            Covenant::from_ops(&[
+                LoadImm(4), BtoI,
+                i(0), i(4), LoadImm(0), VRef, VRef, Hash(5000), BtoI,   // hash(tx.covenants[0])
+                Eql,
+                i(*h), LoadImm(8), Lt,                                   // height < h  (Lt pops x = top = height, y = h: x < y)
+                And,
+            ]).to_bytes().to_vec()
+        }
         CovKind::Garbage => vec![0xf0, 0x05, 0x01],
         CovKind::ReturnsBytes => Covenant::from_ops(&[BEmpty]).to_bytes().to_vec(),
     }
@@ -97,7 +122,7 @@ impl Wallet {
 
     pub fn random_address(&mut self, r: &mut StdRng) -> Address {
         let nk = self.keys.len();
-        let kind = match if self.simple { r.gen_range(0..30) } else { r.gen_range(0..40) } {
+        let kind = match if self.simple { r.gen_range(0..30) } else { r.gen_range(0..44) } {
             0..=11 => CovKind::Legacy(r.gen_range(0..nk)),
             12..=23 => CovKind::New(r.gen_range(0..nk)),
             24..=29 => CovKind::True,
@@ -109,7 +134,9 @@ impl Wallet {
             36 => CovKind::DenomMel,
             37 => CovKind::DataBound(r.gen_range(0..nk)),
             38 => CovKind::Garbage,
-            _ => CovKind::ReturnsBytes,
+            39 => CovKind::ReturnsBytes,
+            40 | 41 => CovKind::EnvConsistent,
+            _ => CovKind::SelfHashAndHeightBelow(r.gen_range(1..12)),
         };
         self.address(kind)
     }
